@@ -325,6 +325,8 @@ int main(int argc, char **argv)
             rng_t r = rng_for(a.seed, 0x10E6, (uint64_t)i);
             size_t len = (size_t)N + 1 + rnd(&r, i % 4 == 0 ? 65536 : 3000);
             if (a.thorough && i == 0) len = ((size_t)4 << 20) + 5;
+            if (i == 1) len = ((size_t)1 << 20) + 21;       /* 65536 full blocks + tail in ONE update: 16-bit block counters wrap here */
+            if (i == 2) len = ((size_t)1 << 20);
             if (mine(&a, idx)) hash_case(&a, idx, len, (int)(i % BC_N), 1);
         }
     } else if (!strcmp(a.mode, "stream")) {
